@@ -714,6 +714,12 @@ def check_comparisons(ctx, rep, rid, table):
     operand pair with a different operator/orientation is a violation; additional comparisons are tolerated."""
     for fn, expected in table.items():
         if not ctx.has(fn):
+            import forms as _forms
+            if any(v['def'] == fn for v in _forms.gone_helpers().values()):
+                # a small pinned helper that was inlined into its caller and deleted: its comparisons now live in the
+                # caller (where the tables that name the helper compare through its pinned return form)
+                rep.ob(rid, fn, 'helper inlined into its caller', True, None, 'the pinned helper no longer exists; forms that name it are compared through its pinned return form')
+                continue
             rep.anchor_lost(rid, fn)
             continue
         got = comparison_forms(ctx, fn)
